@@ -3,6 +3,13 @@
  * In-process product enumeration (vxp) of libcoap's coap_oscore_new_pdu_encrypted_lkd() /
  * coap_oscore_decrypt_pdu(), differential against ref/refoscore.c (OpenSSL crypto, libcoap uses GnuTLS).
  *
+ * Link-time seams (reg/C14.json "wraps"): coap_socket_connect_udp / _send / _close (no sockets, sends are counted and
+ * dropped), coap_malloc_type / coap_free_type (only the 8 MiB OSCORE scratch buffer is served from a harness block),
+ * oscore_cbor_put_bytes / oscore_generate_nonce / coap_new_bin_const (pass-through; forward (NULL, 0) with a non-NULL
+ * pointer iff a start-up probe shows that the real function dies under UBSan, and report that as its own signature).
+ *
+ * Stage "c14" (asan) runs the first, second and fourth space; stage "c14full" (fast, -DC14_FULL, thorough only) the third.
+ *
  * Spaces (all index -> case mappings are pure mixed-radix decodings):
  *   "appendix-c+msg-major"  cases 0..10 = RFC 8613 Appendix C vectors driven through libcoap, then
  *                           every message x core contexts x every Partial IV
@@ -233,13 +240,19 @@ build_ctxs(void) {
     }
   return n;
 }
-/* core contexts: every id length on each side, every id-context / salt / secret value at least once */
+/* core contexts (thorough): every id length pair once, id-context / salt / secret values rotating */
 static const struct ctxspec CORE_CTX[] = {
     {0, 1, 0, 8, 16}, {0, 3, 1, 0, 32}, {0, 7, 8, 8, 32}, {1, 0, 8, 0, 16}, {1, 1, 1, 8, 32}, {1, 3, 0, 0, 16},
     {1, 7, 8, 8, 16}, {3, 0, 0, 8, 16}, {3, 1, 8, 0, 32}, {3, 3, 1, 8, 16}, {3, 7, 0, 0, 16}, {7, 0, 1, 8, 32},
     {7, 1, 0, 0, 32}, {7, 3, 8, 8, 16}, {7, 7, 1, 0, 32}, {7, 7, 8, 8, 16},
 };
 #define NCORE_CTX ((int)(sizeof CORE_CTX / sizeof CORE_CTX[0]))
+/* quick: every id length on each side, every id-context / salt / secret value at least once */
+static const struct ctxspec CORE_CTX_Q[] = {
+    {0, 1, 0, 8, 16}, {1, 0, 8, 0, 16}, {1, 1, 1, 8, 32}, {3, 7, 0, 0, 16},
+    {7, 3, 8, 8, 16}, {7, 7, 1, 0, 32}, {0, 7, 8, 8, 32}, {3, 0, 0, 8, 16},
+};
+#define NCORE_CTX_Q ((int)(sizeof CORE_CTX_Q / sizeof CORE_CTX_Q[0]))
 
 static void
 ctx_params(const struct ctxspec *c, refoscore_params_t *p) {
@@ -1722,7 +1735,7 @@ main(int argc, char **argv) {
 
   int thorough = vx_is_thorough();
   int k = thorough ? 3 : 2;
-  struct space msg_major = {"appendix-c+msg-major", 11, CORE_CTX, NCORE_CTX, SUBSETS, NSUB[k], PAYLENS, NPAYLEN,
+  struct space msg_major = {"appendix-c+msg-major", 11, thorough ? CORE_CTX : CORE_CTX_Q, thorough ? NCORE_CTX : NCORE_CTX_Q, SUBSETS, NSUB[k], PAYLENS, NPAYLEN,
                             ALL_CV, NCODEVAR, ALL_PIV, NPIV, 2, 0};
   struct space ctx_major = {"ctx-major", 0, CTXS, NCTX, CORE_SUBSETS, NCORE_SUBSETS, CORE_PAY, 3,
                             ALL_CV, NCODEVAR, ALL_PIV, NPIV, 1, 0};
@@ -1731,9 +1744,11 @@ main(int argc, char **argv) {
   for (int a = 0; a < 4; a++)
     for (int b = 0; b < 4; b++)
       if (IDLEN[a] || IDLEN[b]) {
-        TAMPER_CTX_Q[NTAMPER_CTX_Q++] = (struct ctxspec){IDLEN[a], IDLEN[b], 0, 8, 16};
-        TAMPER_CTX_Q[NTAMPER_CTX_Q++] = (struct ctxspec){IDLEN[a], IDLEN[b], 8, 8, 16};
+        /* every id length pair once, with and without ID Context alternating */
+        TAMPER_CTX_Q[NTAMPER_CTX_Q] = (struct ctxspec){IDLEN[a], IDLEN[b], NTAMPER_CTX_Q & 1 ? 8 : 0, 8, 16};
+        NTAMPER_CTX_Q++;
       }
+  TAMPER_CTX_Q[NTAMPER_CTX_Q++] = (struct ctxspec){0, 1, 8, 8, 16};
   TAMPER_CTX_Q[NTAMPER_CTX_Q++] = (struct ctxspec){1, 1, 1, 0, 32};
   TAMPER_CTX_Q[NTAMPER_CTX_Q++] = (struct ctxspec){3, 7, 1, 0, 32};
   struct space tamper_q = {"tamper", 0, TAMPER_CTX_Q, NTAMPER_CTX_Q,
